@@ -1068,6 +1068,58 @@ def check_e0_cmd(tier, seed):
 CHECKS = {"C15": check_c15, "E0": check_e0_cmd, "C01": check_c01, "C02": check_c02, "C03": check_c03, "C04": check_c04, "C10": check_c10, "C05": check_c05, "C17": check_c17, "C18": check_c18, "C07": check_c07, "C08": check_c08, "C09": check_c09, "C16": check_c16, "C11": check_c11, "C13": check_c13, "C12": check_c12, "C14": check_c14, "C06": check_c06}
 
 
+REPLAY = {
+    # property: (harness mode, [TV modules])
+    "C01": ("gen", ["TV_Gen.tla", "TV_Dedup.tla"]), "C02": ("gen", ["TV_Gen.tla", "TV_Dedup.tla"]), "C03": ("gen", ["TV_Gen.tla", "TV_Dedup.tla"]),
+    "C04": ("gen", ["TV_Dedup.tla"]), "C05": ("gen", ["TV_Gen.tla"]), "C07": ("gen", ["TV_Gen.tla"]), "C08": ("gen", ["TV_Gen.tla"]),
+    "C17": ("gen", ["TV_Gen.tla"]), "C18": ("gen", ["TV_Gen.tla"]), "C06": ("gen", ["TV_C06.tla"]), "C09": ("gen", ["TV_C09.tla"]),
+    "C10": ("gen", ["TV_Fault.tla"]), "C11": ("validate", ["TV_C11.tla"]), "C12": ("sval", ["TV_C12.tla"]), "C13": ("desc", ["TV_C13.tla"]),
+    "C14": ("rval", ["TV_C14.tla"]), "C15": ("fmt", ["TV_C15.tla"]), "C16": ("builder", ["TV_C16.tla"]),
+}
+
+
+def replay(prop, path):
+    """Re-run one recorded case through the real crate and let TLC judge it again, printing the verdict lines."""
+    rec = json.load(open(path))
+    case = rec["case"]
+    mode, tvs = REPLAY[prop]
+    if prop == "C10" and "kind" not in case:
+        tvs = ["TV_Gen.tla"]
+    wd = workdir("replay")
+    harness_case = dict(case)
+    if prop == "C16" and "calls_text" in case:
+        harness_case["calls"] = case["calls_text"]
+    write_ndjson(os.path.join(wd, "case.ndjson"), [harness_case])
+    harness_run(mode, os.path.join(wd, "case.ndjson"), os.path.join(wd, "obs.ndjson"), jobs=1)
+    obs = read_ndjson(os.path.join(wd, "obs.ndjson"))
+    if prop == "C16":
+        for o in obs:
+            o["input"] = {k: v for k, v in case.items() if k != "calls_text"}
+        write_ndjson(os.path.join(wd, "obs.ndjson"), obs)
+    if obs and obs[0].get("crash"):
+        print(f"replay: the worker {obs[0]['crash']} on this case")
+        print(f"VIOLATION property={prop} replay={path}")
+        return 1
+    bad = False
+    print("recorded:", rec.get("what"))
+    for tv in tvs:
+        extra = {}
+        out = tlc_run(os.path.join(SPEC, "tv", tv), os.path.join(SPEC, "tv", tv.replace(".tla", ".cfg")), os.path.join(wd, tv + ".out"),
+                      os.path.join(wd, "md"), workers=1, env={"OBS": os.path.join(wd, "obs.ndjson")}, timeout=600)
+        tlc_summary(out)
+        for v in tlc_lines(out, "V "):
+            mine = [x for x in v.get("failed", []) if x.startswith(prop + ".")]
+            print(f"{tv}: failed={v.get('failed')} known={v.get('known')} drift={v.get('drift')}")
+            if mine:
+                bad = True
+    print("observation:", os.path.join(wd, "obs.ndjson"))
+    if bad:
+        print(f"VIOLATION property={prop} replay={path}")
+        return 1
+    print("replay: the property's predicates hold on this case now")
+    return 0
+
+
 def selfcheck():
     """setup: parse every specification module with SANY."""
     bad = 0
@@ -1101,7 +1153,6 @@ def main():
         os.makedirs(WORK, exist_ok=True)
         harness_build()
         if sys.argv[1] == "replay":
-            from replay import replay
             return replay(prop, sys.argv[3])
         return CHECKS[prop](tier, seed)
     except ToolError as e:
